@@ -76,6 +76,8 @@ type CaseResult struct {
 	Inconclusive string   `json:"inconclusive,omitempty"`
 	ReachedOpen  bool     `json:"reached_open"`
 	Steps        int      `json:"steps_processed"`
+	Packets      []RawPacket `json:"-"`
+	MsgSizes     []int       `json:"-"`
 }
 
 func (c *CaseResult) problem(key, format string, a ...any) {
@@ -233,6 +235,10 @@ func (e *TunnelEnv) RunHistory(syms []Sym) *CaseResult {
 	snap = t.Snapshot()
 	res.Trace = snap.Log
 	res.End = snap.OutEnd
+	for _, p := range snap.Packets {
+		res.Packets = append(res.Packets, p.Raw)
+	}
+	res.MsgSizes = snap.MsgSizes
 	if !complete {
 		res.End = "not-ended"
 	}
